@@ -7,6 +7,7 @@
 #include <fstream>
 #include <iostream>
 #include <thread>
+#include <memory>
 #include <unistd.h>
 
 using namespace verif;
@@ -31,9 +32,12 @@ int main(int argc, char **argv)
       std::ofstream f(path);
       f << dump(copy);
     }
-  WorldBuilder::World world(path);
+  std::unique_ptr<WorldBuilder::World> world_ptr;
+  try { world_ptr.reset(new WorldBuilder::World(path)); }
+  catch (const std::exception &) { std::cout << "{\"skipped\":\"world does not build\"}" << std::endl; return 77; }
+  WorldBuilder::World &world = *world_ptr;
 
-  struct Q { std::array<double,3> p; double depth; std::vector<std::array<unsigned int,3>> props; };
+  struct Q { std::array<double,3> p; double depth; std::vector<std::array<unsigned int,3>> props; int dim; };
   std::vector<Q> qs;
   const double PI = 3.141592653589793238462643383279502884;
   for (auto &pt : d["points"].GetArray())
@@ -49,15 +53,27 @@ int main(int argc, char **argv)
         else
           {
             const std::vector<double> v = eval_vec(pt["p"]);
-            q.p = {{v[0], v[1], v[2]}};
+            q.p = {{v[0], v[1], v.size() > 2 ? v[2] : 0.}};
           }
+        q.dim = pt.HasMember("dim") ? pt["dim"].GetInt() : 3;
         q.depth = eval(pt["depth"]);
         for (auto &e : l.GetArray()) q.props.push_back({{e[0].GetUint(), e[1].GetUint(), e[2].GetUint()}});
         qs.push_back(q);
       }
   // single-thread reference
   std::vector<std::vector<double>> ref;
-  for (auto &q : qs) ref.push_back(world.properties(q.p, q.depth, q.props));
+  auto ask = [&world](const Q &q)
+  {
+    try
+      {
+        return q.dim == 2 ? world.properties(std::array<double,2> {{q.p[0], q.p[1]}}, q.depth, q.props) : world.properties(q.p, q.depth, q.props);
+      }
+    catch (const std::exception &)
+      {
+        return std::vector<double> {{-12345.678}};       // a query that throws must throw for every thread alike
+      }
+  };
+  for (auto &q : qs) ref.push_back(ask(q));
 
   std::atomic<long> mismatches(0), done(0);
   std::vector<std::thread> ts;
@@ -68,7 +84,7 @@ int main(int argc, char **argv)
         for (size_t k = 0; k < qs.size(); ++k)
           {
             const size_t i = (k * (2 * t + 1) + t + static_cast<size_t>(r)) % qs.size();   // every thread its own order
-            const std::vector<double> out = world.properties(qs[i].p, qs[i].depth, qs[i].props);
+            const std::vector<double> out = ask(qs[i]);
             bool same = out.size() == ref[i].size();
             for (size_t j = 0; same && j < out.size(); ++j) same = bits(out[j]) == bits(ref[i][j]);
             if (!same) ++mismatches;
